@@ -254,6 +254,7 @@ class Verifier:
             if mutate is not None:
                 fn = mutate(fn)
             rep.source = self.fe.consumed.get(target, {})
+            self._fn_node = fn
             self._loops = [n for n in _ordered_loops(fn)]
             fi = 0
             inv = self.class_inv_for(mi, owner_ci, target)
@@ -278,6 +279,11 @@ class Verifier:
             # when-conditions of raises clauses are pre-state predicates
             outs = eng.ex_block(fn.body, st, fi)
             rep.paths = len(outs)
+            # vacuity guard: every path was feasible at its last branch; one that is infeasible where it ends had contradictory facts put
+            # on it by the executor afterwards - its obligations would be discharged vacuously
+            dead = [i for i, o in enumerate(outs) if not o.st.feasible()]
+            if dead:
+                rep.undecided.append(f"vacuity guard: path(s) {dead[:6]} of {len(outs)} end with a contradictory path condition (engine limitation)")
             for pno, o in enumerate(outs):
                 self._check_outcome(eng, rep, c, inv, old, o, pno, fi, self_name)
         except Unsupported as e:
@@ -380,7 +386,9 @@ class Verifier:
                 eng.pure = True
                 eng.spec_lets = dict(c.lets)
                 try:
-                    (s, v), = eng.ev(m, st.copy(), fi)
+                    tmp = st.copy()
+                    (s, v), = eng.ev(m, tmp, fi)
+                    _keep_axioms(st, s)
                 finally:
                     eng.pure = saved
                 if not isinstance(v, SRef):
@@ -410,22 +418,38 @@ class Verifier:
         a changed function whose obligations all time out must not stall the whole check."""
         from . import smt
         tmo = timeout_ms or self.timeout_ms
-        budget = float(os.environ.get("PYVC_TARGET_BUDGET_S", "150" if tmo <= 10000 else "1800"))
-        t0 = time.time()
+        budget = float(os.environ.get("PYVC_TARGET_BUDGET_S", "300" if tmo <= 10000 else "2400"))
+        # CPU seconds of this process and of the cvc5 children it waited for (not wall clock: verdicts must not flip when all cores are busy)
+        clock = lambda: sum(os.times()[:4])
+        t0 = clock()
         pending = []
         for ob in rep.obligations:
-            if time.time() - t0 > budget:
+            if clock() - t0 > budget:
                 ob.result, ob.backend, ob.note = "unknown", "none", (ob.note + " " if ob.note else "") + "target budget exhausted before this obligation"
                 continue
             smt.discharge(ob, tmo, quick_only=True)
             if ob.result == "unknown":
                 pending.append(ob)
         for ob in pending:
-            if time.time() - t0 > budget:
+            if clock() - t0 > budget:
                 ob.note = (ob.note + " " if ob.note else "") + "target budget exhausted (short z3 attempt only)"
                 continue
             ob.note = ""
             smt.discharge(ob, tmo)
+
+
+def _keep_axioms(st: State, scratch: State):
+    """a frame expression is evaluated (in spec mode) on a scratch copy; the facts that evaluation put on the scratch path are typing /
+    closure axioms about the initial heap (e.g. the closure axiom of a field first touched there) - they hold on the real path too and
+    are needed there: the havocked reference comes from the scratch evaluation"""
+    have = {p.get_id() for p in st.pc}
+    for p in scratch.pc:
+        if p.get_id() not in have:
+            st.pc.append(p)
+            have.add(p.get_id())
+    for f, arr in scratch.heap.fields.items():
+        if f not in st.heap.fields and arr.decl().name() == f"F0_{f}":
+            st.heap.fields[f] = arr
 
 
 def _with_pc(old: State, st: State) -> State:
@@ -448,6 +472,18 @@ def _ordered_loops(fn):
 # --------------------------------------------------------------------------------------------------
 def apply_contract(eng: Engine, st: State, fv: SFunc, c: Contract, args, kwargs, node=None):
     """call site: assert the callee's precondition, havoc its frame, assume its postcondition"""
+    saved_obs = getattr(eng, "spec_observes", None)
+    scope = next(sym._fresh)
+    # names the CALLEE's contract gives to results of external calls made inside the callee: unknown to the caller, so each denotes a
+    # fresh value of the declared result type, one per call site (never the caller's own observations)
+    eng.spec_observes = {name: f"{attr}#c{scope}" for name, attr in c.observes.items()}
+    try:
+        return _apply_contract(eng, st, fv, c, args, kwargs, node)
+    finally:
+        eng.spec_observes = saved_obs
+
+
+def _apply_contract(eng: Engine, st: State, fv: SFunc, c: Contract, args, kwargs, node=None):
     eng.skolem_scope = next(sym._fresh)
     vals = eng.bind_params(st, fv, args, kwargs, node)
     vals = {k: (v.lst if isinstance(v, models.SGen) else v) for k, v in vals.items()}  # a generator argument is seen as the list of what it yields
@@ -493,6 +529,7 @@ def apply_contract(eng: Engine, st: State, fv: SFunc, c: Contract, args, kwargs,
         na = sym.fresh_const("events", sym.SeqArrS)
         st.assume(z3.ForAll([k], z3.Implies(z3.And(k >= 0, k < st.ev_len), z3.Select(na, k) == z3.Select(st.ev_arr, k))))
         st.ev_len, st.ev_arr = n, na
+        st.havoc_ev_set()
     for name, arg_exprs in c.logs:
         vals = []
         saved = eng.pure
